@@ -68,6 +68,38 @@ class _ConstProp(ast.NodeTransformer):
         return node
 
 
+class _SearchLoopUnroller(ast.NodeTransformer):
+    """`for X in (c1, ..., cn): if T(X): S(X); break` [else: E]  ==  if T(c1): S(c1) elif ... elif T(cn): S(cn) [else: E]
+    (a first-match search over a literal tuple; S must not rebind X, break or continue otherwise)"""
+
+    def __init__(self) -> None:
+        self.done = 0
+
+    def visit_For(self, node: ast.For) -> ast.AST:
+        self.generic_visit(node)
+        if not (isinstance(node.target, ast.Name) and isinstance(node.iter, (ast.Tuple, ast.List)) and node.iter.elts
+                and all(isinstance(e, ast.Constant) for e in node.iter.elts) and len(node.iter.elts) <= 8):
+            return node
+        if not (len(node.body) == 1 and isinstance(node.body[0], ast.If) and not node.body[0].orelse and node.body[0].body
+                and isinstance(node.body[0].body[-1], ast.Break)):
+            return node
+        inner = node.body[0]
+        stmts = inner.body[:-1]
+        x = node.target.id
+        for st in stmts:
+            for n in ast.walk(st):
+                if isinstance(n, (ast.Break, ast.Continue)) or (isinstance(n, ast.Name) and n.id == x and isinstance(n.ctx, ast.Store)):
+                    return node
+        chain: list[ast.stmt] = list(node.orelse)
+        for c in reversed(node.iter.elts):
+            ren = _Rename({x: c})
+            test = ren.visit(copy.deepcopy(inner.test))
+            body = [ren.visit(copy.deepcopy(st)) for st in stmts] or [ast.Pass()]
+            chain = [ast.copy_location(ast.If(test, body, chain), node)]
+        self.done += 1
+        return chain[0]
+
+
 # --------------------------------------------------------------------------- helper inlining
 class _Rename(ast.NodeTransformer):
     def __init__(self, mapping: dict[str, ast.AST]) -> None:
@@ -483,6 +515,11 @@ def normalize_repo(repo: Repo) -> dict[str, object]:
                 fn.node = cp.visit(fn.node)
                 if cp.hits:
                     report["propagated_constants"].append(f"{fn.where}: {cp.hits}")  # type: ignore[union-attr]
+            un = _SearchLoopUnroller()
+            fn.node = un.visit(fn.node)
+            if un.done:
+                ast.fix_missing_locations(fn.node)
+                report.setdefault("unrolled_search_loops", []).append(f"{fn.where}: {un.done}")  # type: ignore[union-attr]
             if spellings:
                 _COUNTER[0] = 0
                 inl = _Inliner(spellings, fn.cls.name if fn.cls else None)
